@@ -1153,10 +1153,34 @@ class Ctx(object):
                 pass
         if not z3.is_bool(ta) and self.rules:
             from . import poly
-            if poly.equal(ta, tb, self.rules):
-                self.stats.identity += 1
-                self.checks_on_path += 1
-                return True
+            res = poly.difference(ta, tb, self.rules)
+            if res is not None:
+                d, rules = res
+                if not d:
+                    self.stats.identity += 1
+                    self.checks_on_path += 1
+                    return True
+                # the normal forms differ: a small query over the relations that touch the
+                # difference polynomial looks for a point where it does not vanish -- a
+                # candidate counterexample (settled by the replay), found without the full
+                # path condition
+                t0 = time.time()
+                w = poly.nonzero_witness(d, rules)
+                self.stats.solver_s += time.time() - t0
+                if w is not None:
+                    # the normal form is not canonical for every relation: let the solver try
+                    # the real goal briefly before the witness is believed
+                    r2, _m2 = self.solve(z3.Not(ta == tb), timeout_ms=max(1000, self.query_timeout_ms // 2))
+                    if r2 == "unsat":
+                        self.stats.queries["unsat"] += 1
+                        self.checks_on_path += 1
+                        return True
+                    self.checks_on_path += 1
+                    self.stats.queries["sat"] += 1
+                    part = {k: model_value(v) for k, v in w.items()}
+                    self.results.append(Result(label, "sat", part, time.time() - t0, list(self.prefix[:self.pos]),
+                                               "normal forms differ; witness of the reduced relations"))
+                    return False
         return self.check(label, wrap(ta == tb), detail)
 
     def define(self, prefix, value):
